@@ -245,3 +245,87 @@ func OddShape(kind, sel int, copies ...proto.Message) bool {
 	}
 	return true
 }
+
+// SharesMemory walks the Go struct of m and reports the first string, byte
+// slice or other slice whose backing memory (up to its CAPACITY: an append by
+// the owner writes there) overlaps the backing array of buf (up to its
+// capacity). "" means no overlap. Zero-capacity slices and empty strings own
+// no memory.
+func SharesMemory(m proto.Message, buf []byte) string {
+	if cap(buf) == 0 || m == nil {
+		return ""
+	}
+	full := buf[:cap(buf)]
+	lo := uintptr(unsafe.Pointer(&full[0]))
+	w := &memWalk{lo: lo, hi: lo + uintptr(len(full))}
+	v := reflect.ValueOf(m)
+	if v.Kind() != reflect.Pointer || v.IsNil() {
+		return ""
+	}
+	w.walk("", v, 0)
+	return w.found
+}
+
+type memWalk struct {
+	lo, hi uintptr
+	found  string
+}
+
+func (w *memWalk) hit(path, what string, p uintptr, n int) {
+	if w.found == "" && n > 0 && p < w.hi && p+uintptr(n) > w.lo {
+		w.found = fmt.Sprintf("%s: %s at offset %d of the buffer (%d bytes)", path, what, int64(p)-int64(w.lo), n)
+	}
+}
+
+func (w *memWalk) walk(path string, v reflect.Value, depth int) {
+	if depth > 40 || w.found != "" {
+		return
+	}
+	switch v.Kind() {
+	case reflect.Pointer, reflect.Interface:
+		if !v.IsNil() {
+			w.walk(path, v.Elem(), depth+1)
+		}
+	case reflect.Struct:
+		st := v.Type()
+		for i := 0; i < st.NumField(); i++ {
+			sf := st.Field(i)
+			if sf.Name == "state" || sf.Name == "sizeCache" {
+				continue
+			}
+			if sf.Tag.Get("protobuf") == "" && sf.Tag.Get("protobuf_oneof") == "" && sf.Name != "unknownFields" && st.NumField() > 1 {
+				if sf.Type.Kind() == reflect.Struct || sf.Type.Kind() == reflect.Array || sf.Type.Kind() == reflect.Func {
+					continue
+				}
+			}
+			w.walk(path+"."+sf.Name, v.Field(i), depth+1)
+		}
+	case reflect.Slice:
+		if v.IsNil() {
+			return
+		}
+		if v.Cap() > 0 {
+			w.hit(path, fmt.Sprintf("slice (len %d, cap %d)", v.Len(), v.Cap()), v.Pointer(), v.Cap()*int(v.Type().Elem().Size()))
+		}
+		if v.Type().Elem().Kind() == reflect.Uint8 {
+			return
+		}
+		for i := 0; i < v.Len(); i++ {
+			w.walk(fmt.Sprintf("%s[%d]", path, i), v.Index(i), depth+1)
+		}
+	case reflect.Map:
+		it := v.MapRange()
+		for it.Next() {
+			k := it.Key()
+			kp := fmt.Sprintf("%s{%s}", path, keyString(k))
+			if k.Kind() == reflect.String {
+				s := k.String()
+				w.hit(kp, "map key string", strData(s), len(s))
+			}
+			w.walk(kp, it.Value(), depth+1)
+		}
+	case reflect.String:
+		s := v.String()
+		w.hit(path, "string", strData(s), len(s))
+	}
+}
